@@ -1,4 +1,6 @@
 """C13: piecewise-linear approximations stay within the requested tolerance."""
+import math, os, random
+from fractions import Fraction as Fr
 from . import build, run
 
 RULE = ("mp::PLApproximate<Con> (the routine the converter calls) for all 17 function types x parameters (bases 0.1..50, exponents -9..9 incl. "
@@ -7,7 +9,9 @@ RULE = ("mp::PLApproximate<Con> (the routine the converter calls) for all 17 fun
         "oracle: breakpoints strictly increasing, first/last breakpoint = reported domain (remainder range when periodic), per-segment "
         "maximum of |f-pl| (relative where |f|>1) by 49-point sampling + golden-section refinement against long-double libm, periodic "
         "reduction checked at 5 period factors, integer shortcut exact; non-trivial = a PL with >=3 breakpoints was produced; "
-        "distinct = distinct (function, parameter, shape, tolerance, integer, periodic) signatures")
+        "distinct = distinct (function, parameter, shape, tolerance, integer, periodic) signatures; second stage through the converter: 'y = f(x)' "
+        "with f not accepted and PLConstraint accepted, the delivered model (period remainder/factor variables, linking row, PL constraint) "
+        "decided by z3 at sampled arguments incl. period boundaries: some y exists and every admitted y is within reltol of f(x)")
 
 
 def builds():
@@ -16,6 +20,8 @@ def builds():
 
 def prebuild():
     builds()
+    from . import mpmon
+    mpmon.exe()
 
 
 def main(tier, seed):
@@ -51,10 +57,117 @@ def main(tier, seed):
         ctx.violation('%s:%s' % (kind, top), 'PLApproximate died/hung on case %d: %s in %s' % (case, kind, top), dict(cmd=cmd, report=exc))
 
     run.run_sharded(exe, [], ctx.n(20000, 1000000), on_line, on_death, seed, timeout_per_case=30, shards=16)
+    converter_stage(ctx, seed)
     ctx.extras.update(cases_per_function=per_fn, outcomes=outcomes, sanitizers='ASan + UBSan(bounds,...) + _GLIBCXX_ASSERTIONS')
     ctx.assumptions += ['long-double libm is the reference for the true function', 'mp::Error thrown by the approximator is a refusal (counted)',
                         'errors up to tol*(1+1e-6) are accepted; first/last breakpoint may differ from the reported domain by 1e-9 relative']
     return ctx.finish(RULE, floor=100)
+
+
+CONV_FUNCS = {'sin': (-40, 40), 'cos': (-40, 40), 'exp': (-6, 6), 'log': (0.05, 60), 'tanh': (-6, 6), 'atan': (-30, 30), 'sinh': (-4, 4), 'cosh': (-4, 4),
+              'asinh': (-30, 30), 'sqrt': (0, 60)}
+
+
+def converter_stage(ctx, seed):
+    """End to end through the converter: 'y = f(x)' with f not accepted natively and PLConstraint accepted; the delivered model (remainder and
+    period-factor variables, linking row, PL constraint) is decided by z3 at sampled arguments: some y must exist and every admitted y must be
+    within the requested relative tolerance of f(x).  This is what uses the approximation: a correct PL on the wrong argument is caught here only."""
+    from . import mpmon, gen_nl, flat_eval, flat_z3
+    exe = mpmon.exe()
+    wd = ctx.workdir()
+    ncases = ctx.n(240, 6000)
+
+    def one(k):
+        rng = random.Random('conv/%d/%d' % (seed, k))
+        fn = rng.choice(['sin', 'cos', 'sin', 'cos'] + sorted(CONV_FUNCS))
+        lo, hi = CONV_FUNCS[fn]
+        a = Fr(rng.randint(int(lo * 8), int(hi * 8) - 4), 8)
+        if fn in ('log',) and a <= 0:
+            a = Fr(1, 16)
+        w = Fr(rng.choice([rng.randint(2, 24), rng.randint(24, 400)]), 8)
+        b = min(a + w, Fr(hi))
+        if b <= a:
+            b = a + Fr(1, 2)
+        isint = rng.random() < 0.15
+        if isint:
+            a, b = Fr(math.ceil(a)), Fr(math.floor(b))
+            if b <= a:
+                b = a + 2
+        m = gen_nl.Model()
+        m.vars = [dict(lb=a, ub=b, type='c'), dict(lb=Fr(-10 ** 6), ub=Fr(10 ** 6), type='c')]
+        if isint:
+            m.vars = [dict(lb=Fr(-10 ** 6), ub=Fr(10 ** 6), type='c'), dict(lb=a, ub=b, type='i')]
+        xi, yi = (1, 0) if isint else (0, 1)
+        m.cons = [dict(expr=(fn, ('v', xi)), lin={yi: Fr(-1)}, lb=Fr(0), ub=Fr(0))]
+        m.objs = [dict(sense=0, expr=None, lin={yi: Fr(1)})]
+        tol = rng.choice([None, None, 0.05, 0.002])
+        opts = ['cvt:plapprox:reltol=%g' % tol] if tol else []
+        rtol = tol or 0.01
+        acc = {'*': 0, 'LinConLE': 2, 'LinConEQ': 2, 'LinConGE': 2, 'LinConRange': 2, 'PLConstraint': 2}
+        r = mpmon.run_case(exe, wd, 'p%d' % k, m.to_nl(), opts=opts, acc=acc, timeout=120)
+        res = []
+        info = dict(fn=fn, lo=float(a), hi=float(b), tol=rtol, isint=isint, points=0, periodic=False, delivered=False)
+        death = run.classify_death(r)
+        if death and death[0] not in ('exit:1', 'exit:255'):
+            res.append(('converter-path:%s:%s' % (death[0], death[1]), 'driver died: ' + death[2][-300:]))
+            return k, res, info
+        tr = flat_eval.Trace(r['trace'])
+        if not tr.finished or not any(c['type'] == 'PLConstraint' for c in tr.cons):
+            return k, res, info                      # refused or not approximated: nothing to judge here
+        info['delivered'] = True
+        info['periodic'] = tr.nvars > 3
+        try:
+            enc = flat_z3.Enc(tr, timeout_ms=20000)
+        except flat_z3.Unsupported as ex:
+            info['unsupported'] = str(ex); return k, res, info
+        period = 2 * math.pi
+        xs = [a, b, (a + b) / 2] + [a + (b - a) * Fr(rng.randint(0, 1 << 20), 1 << 20) for _ in range(6)]
+        if fn in ('sin', 'cos'):
+            for kk in range(math.ceil(float(a) / period), math.floor(float(b) / period) + 1):      # around period boundaries
+                for d in (-1e-3, 0.0, 1e-3):
+                    t = Fr(kk * period + d)
+                    if a <= t <= b:
+                        xs.append(t)
+            xs = xs[:24]
+        if isint:
+            xs = sorted(set(Fr(round(x)) for x in xs if a <= round(x) <= b))
+        z3 = flat_z3.z3
+        for x in xs:
+            fx = gen_nl.smooth(fn, x)
+            ffx = Fr(fx)
+            t = Fr(rtol) * max(1, abs(ffx)) * Fr(1000001, 1000000) + Fr(1, 10 ** 9)
+            enc.s.push()
+            enc.s.add(enc.v[xi] == z3.Q(x.numerator, x.denominator))
+            a1 = enc.check()
+            if a1 == 'unsat':
+                res.append(('converter-path:argument-value-excluded-by-the-delivered-model:%s' % fn, '%s(x) on [%s, %s], x=%s: no y at all' % (fn, float(a), float(b), float(x))))
+                enc.s.pop(); break
+            y = enc.v[yi]
+            hi_ = ffx + t; lo_ = ffx - t
+            a2 = enc.check(z3.Or(y > z3.Q(hi_.numerator, hi_.denominator), y < z3.Q(lo_.numerator, lo_.denominator)))
+            if a1 == 'sat' and a2 != 'unknown':
+                info['points'] += 1
+            if a2 == 'sat':
+                yv = enc.s.model().eval(enc.raw[yi], model_completion=True)
+                res.append(('converter-path:error-exceeds-tolerance:%s' % fn, '%s(x) on [%s, %s] reltol %g%s: at x=%.17g the delivered model admits y=%s, f(x)=%.17g' % (fn, float(a), float(b), rtol, ' integer x' if isint else '', float(x), yv, fx)))
+                enc.s.pop(); break
+            enc.s.pop()
+        if not res:
+            for ext in ('.nl', '.sol', '.trace'):
+                try:
+                    os.unlink(r['base'] + ext)
+                except OSError:
+                    pass
+        return k, res, info
+
+    for k, res, info in run.pmap_proc(one, range(ncases), chunk=2):
+        ctx.count('conv|%s|%g|%d|%d' % (info['fn'], info['tol'], info['isint'], info['periodic']), nontrivial=info['points'] >= 3)
+        ctx.bump('converter_path_models', 1)
+        ctx.bump('converter_path_models_with_delivered_pl', 1 if info['delivered'] else 0)
+        ctx.bump('converter_path_periodic_decompositions', 1 if info['periodic'] else 0)
+        ctx.bump('converter_path_points_decided', info['points'])
+        for key, text in res:
+            ctx.violation(key, '%s (converter case %d)' % (text, k), dict(case=k, seed=seed, info=info))
 
 
 def replay(path):
